@@ -27,6 +27,9 @@ KINDS = {
     "i8": "int64",
     "u1": "uint8",
     "i4": "int32",
+    "i1": "int8",
+    "i2": "int16",
+    "u4": "uint32",
     "f4": "float32",
     "b1": "bool",
     "str": "StringDType",
@@ -83,6 +86,8 @@ def _np_array(kind, toks):
         return np.array([int(t) for t in toks], dtype="uint8")
     if kind == "i4":
         return np.array([int(t) for t in toks], dtype="int32")
+    if kind in ("i1", "i2", "u4"):
+        return np.array([int(t) for t in toks], dtype={"i1": "int8", "i2": "int16", "u4": "uint32"}[kind])
     if kind == "f4":
         return np.array([np.nan if t is None else float(t) for t in toks], dtype="float32")
     if kind == "b1":
@@ -354,6 +359,10 @@ A = {
     "f4": {"quick": [None, "1.5", "2.5", "-inf"], "thorough": [None, "1.5", "2.5", "-inf", "0.0", "-0.0"], "key": [None, "1.5", "2.5"]},
     "i4": {"quick": [0, 1, -2147483648, 2147483647], "thorough": [0, 1, -2147483648, 2147483647, -1], "key": [0, 1, -2147483648]},
     "u1": {"quick": [0, 5, 200], "thorough": [0, 5, 200], "key": [0, 5, 200]},
+    # narrow signed types: differences of their extremes do not fit the type itself
+    "i1": {"quick": [-128, 127, 0, 100], "thorough": [-128, 127, 0, 100, -100], "key": [-128, 127, 0]},
+    "i2": {"quick": [-32768, 32767, 0, 7], "thorough": [-32768, 32767, 0, 7, -1], "key": [-32768, 32767, 0]},
+    "u4": {"quick": [0, 4294967295, 7], "thorough": [0, 4294967295, 7, 2147483648], "key": [0, 4294967295, 7]},
     "b1": {"quick": [False, True], "thorough": [False, True], "key": [False, True]},
     "str": {
         "quick": [None, "a", "b", "ab", LONG_A, LONG_B],
@@ -395,7 +404,7 @@ def order_key(kind):
     """Total order on non-missing tokens of a kind, as the properties state it."""
     if kind in ("f8", "f4"):
         return float
-    if kind in ("i8", "u1", "i4", "obj"):
+    if kind in ("i8", "u1", "i4", "i1", "i2", "u4", "obj"):
         return lambda t: t
     if kind == "b1":
         return lambda t: int(t)
